@@ -6,6 +6,7 @@ package main
 
 import (
 	"bytes"
+	"crypto/sha256"
 	"encoding/binary"
 	"fmt"
 	square "github.com/celestiaorg/go-square/v2"
@@ -797,6 +798,49 @@ func genC09(c *Ctx) {
 	c.rule = "tx lists (1-12 txs; lengths from exact-fill, prefix-straddle, varint-width and random families) for both compact namespaces; written, counted, exported, parsed; non-trivial = distinct length list spanning more than one share"
 	r := c.rng
 	c09NamespaceViews(c, r)
+	// Go side only: every transaction parsed back from exactly ITS OWN share range (what ShareRanges reports,
+	// the natural use of the two functions together), on sequences in which a unit starts 0..5 bytes into a
+	// continuation share and a later unit ends 0..5 bytes before the end of its last share - a parser that sizes
+	// its buffer as if every range began with the sequence's first share is short by up to 4 bytes exactly there
+	for d := 0; d <= 5; d++ {
+		for e := 0; e <= 5; e++ {
+			for k := 1; k <= 2; k++ {
+				first := r.Bytes(474 + d - 2)                                       // unit of 474+d bytes: the next unit starts at payload offset d of share 1
+				second := r.Bytes(478*k - d - e - 2) // ends e bytes before the end of share k
+				if len(second) < 128 {
+					continue
+				}
+				txs := [][]byte{first, second, r.Bytes(1 + r.Intn(100))}
+				nsb := pick(r, [][]byte{txNs, pfbNs})
+				css := share.NewCompactShareSplitter(nsOf(nsb), 0)
+				for _, t := range txs {
+					_ = css.WriteTx(t)
+				}
+				shs, err := css.Export()
+				if err != nil {
+					continue
+				}
+				ranges := css.ShareRanges(0)
+				for ti, t := range txs {
+					rg, ok := ranges[sha256.Sum256(t)]
+					wit := map[string]any{"tx_lens": lensOf(txs), "tx": ti, "range": fmt.Sprintf("%d-%d", rg.Start, rg.End), "shares": len(shs)}
+					if !c.check(ok && rg.Start >= 0 && rg.End <= len(shs) && rg.Start < rg.End, "CompactShareSplitter.ShareRanges", "no usable range for a written transaction", wit) {
+						continue
+					}
+					c.guard("ParseTxs(own range)", wit, func() {
+						got, err := share.ParseTxs(shs[rg.Start:rg.End])
+						found := false
+						for _, g := range got {
+							found = found || bytes.Equal(g, t)
+						}
+						c.check(err == nil && found, "ParseTxs(own range)", "parsing exactly the shares ShareRanges reports for a transaction does not give the transaction back", wit)
+					})
+				}
+				c.count("own_range_parse")
+				c.goOnly++
+			}
+		}
+	}
 	nRandom := 400 * c.scale
 	// Go side only: single very long units on the varint-width boundaries 2^14 and 2^21 (and 2^20), alone and
 	// between small transactions, ending on / one byte past a share boundary
@@ -1071,6 +1115,12 @@ func genC11(c *Ctx) {
 		{r.Bytes(339), r.Bytes(16384)},
 		{r.Bytes(342), r.Bytes(129), r.Bytes(50)},
 		{r.Bytes(344), r.Bytes(127), r.Bytes(50)},
+		// a long transaction that ends EXACTLY on a share end (so the next share's first unit starts at its first
+		// payload byte) with ranges that begin in a share wholly inside it
+		{r.Bytes(1428), r.Bytes(5)},
+		{r.Bytes(1428 + 478), r.Bytes(5), r.Bytes(7)},
+		{r.Bytes(10), r.Bytes(1417), r.Bytes(5)},
+		{r.Bytes(1428), r.Bytes(476), r.Bytes(3)},
 	}
 	{
 		// 700 one-byte transactions: a unit ends on every share end
